@@ -224,9 +224,32 @@ fn file_leg(src: &mut Src, ctx: &mut RunCtx, solo: &Arc<Solo>) -> RunResult {
     }
     let dir = tempfile::tempdir().map_err(|e| Violation::new("HARNESS-PANIC tempdir", e.to_string()))?;
     let path = dir.path().join("out.bin");
-    if mode == 2 {
-        std::fs::write(&path, b"").map_err(|e| Violation::new("HARNESS-PANIC write", e.to_string()))?;
+    // What is at the path beforehand: nothing (Create), stale content that
+    // must disappear (Overwrite: shorter, longer, not sample-aligned), or whole
+    // samples that must stay in front of the new ones (Append).
+    let pre: Option<Vec<u8>> = match mode {
+        1 if src.coin() => {
+            let l = match src.below(4) {
+                0 => 1,
+                1 => raw.len() + esz * src.range(1, 9),
+                2 => 3 * raw.len() + 5,
+                _ => src.below(raw.len() + 2),
+            };
+            Some((0..l).map(|_| src.below(256) as u8).collect())
+        }
+        2 => Some((0..esz * src.below(9)).map(|_| src.below(256) as u8).collect()),
+        _ => None,
+    };
+    if let Some(p) = &pre {
+        std::fs::write(&path, p).map_err(|e| Violation::new("HARNESS-PANIC write", e.to_string()))?;
+        if mode == 1 && p.len() > raw.len() {
+            ctx.count("overwrite_of_a_longer_file");
+        }
     }
+    // The sample bytes the file must hold afterwards, and the source must read.
+    let new_raw = raw;
+    let raw: Vec<u8> = if mode == 2 { [pre.clone().unwrap_or_default(), new_raw.clone()].concat() } else { new_raw.clone() };
+    let n_total = raw.len() / esz;
     let m = || match mode {
         0 => Mode::Create,
         1 => Mode::Overwrite,
@@ -234,7 +257,7 @@ fn file_leg(src: &mut Src, ctx: &mut RunCtx, solo: &Arc<Solo>) -> RunResult {
     };
     macro_rules! roundtrip {
         ($t:ty) => {{
-            let data: Vec<$t> = raw.chunks_exact(esz).map(|c| <$t as Sample>::parse(c).unwrap()).collect();
+            let data: Vec<$t> = new_raw.chunks_exact(esz).map(|c| <$t as Sample>::parse(c).unwrap()).collect();
             // --- sink side
             let res = solo.with(|| -> Result<(), String> {
                 rustradio::verif::set_stream_size(small);
@@ -275,7 +298,7 @@ fn file_leg(src: &mut Src, ctx: &mut RunCtx, solo: &Arc<Solo>) -> RunResult {
                 let mut c = Case::new("FileSource", String::new(), Box::new(b));
                 c.outs = vec![StreamOut::new(o)];
                 c.outs[0].preroll(src.below(c.outs[0].capacity()));
-                let r = drive_source(&mut c, solo, src, n);
+                let r = drive_source(&mut c, solo, src, n_total);
                 let st = sys::disarm();
                 ctx.add("fault:short_read", st.short_reads as u64);
                 ctx.add("short_read_inside_sample", st.reads_inside_sample as u64);
